@@ -60,6 +60,8 @@ def rhs_dense(a):
         return [a["c"]] * n
     if a["rk"] == "dense":
         return list(a["bd"])
+    if a["rk"] == "kruskal":
+        return kdense(a)
     return dense_of(a["shape"], a["bsubs"], a["bvals"])
 
 
@@ -68,6 +70,8 @@ def expected_dense(op, a):
     A = dense_of(a["shape"], a["subs"], a["vals"])
     if op in ("neg",):
         return [-x for x in A]
+    if op == "pos":
+        return list(A)
     if op == "not":
         return [int(x == 0) for x in A]
     if op == "ones":
@@ -115,6 +119,8 @@ def apply_op(ttb, np, op, S, R):
         return getattr(O, op)(S, R)
     if op == "neg":
         return -S
+    if op == "pos":
+        return +S
     if op == "not":
         return S.logical_not()
     if op == "ones":
@@ -295,7 +301,7 @@ def permutations_of(n, rng, limit_all=4, nrand=3):
 # ---------------------------------------------------------------------------------------------
 # wave 3: memory layouts of the operands, two-step histories, operands observed after the call
 # ---------------------------------------------------------------------------------------------
-UNARY = ("neg", "not", "ones")
+UNARY = ("neg", "not", "ones", "pos")
 
 
 def lay2d(np, arr, how):
@@ -311,16 +317,42 @@ def lay2d(np, arr, how):
     return arr
 
 
-def mk_sp_layout(ttb, np, shape, subs, vals, lay):
+def mk_sp_layout(ttb, np, shape, subs, vals, lay, dtype=None):
     s = np.array(subs, dtype=int).reshape((len(subs), len(shape)))
-    v = np.array(vals, dtype=float).reshape((len(vals), 1))
+    v = np.array(vals, dtype=dtype or float).reshape((len(vals), 1))
+    if lay == "assigned":
+        # the operand is BUILT BY A HISTORY of element assignments: an empty (1, ..., 1) tensor grown entry by entry in the given
+        # stored order (the shape grows with the assignments; a last corner is set and cleared again when no entry reaches it)
+        S = ttb.sptensor(shape=tuple(1 for _ in shape))
+        for sub, val in zip(subs, vals):
+            S[tuple(sub)] = float(val)
+        if tuple(int(d) for d in S.shape) != tuple(shape):
+            last = tuple(d - 1 for d in shape)
+            S[last] = 7.0
+            S[last] = 0.0
+        return S
     if not lay:
         return ttb.sptensor(s, v, tuple(shape), copy=True)
     return ttb.sptensor(lay2d(np, s, lay.get("sub")), lay2d(np, v, lay.get("val")), tuple(shape), copy=False)
 
 
-def mk_dense_layout(ttb, np, shape, data, how):
+def mk_dense_layout(ttb, np, shape, data, how, dtype=None):
+    if len(shape) == 0:
+        return ttb.tensor()          # pyttb's order-0 tensor is the empty tensor (no data)
+    if how == "grown" and len(shape) >= 2:
+        # a dense tensor GROWN by out-of-bounds assignment (pyttb installs a C-ordered np.zeros(newshape)): start from the
+        # (1, ..., 1) corner, assign past the bounds, then fill in element by element
+        full = tgen.np_dense(np, shape, data)
+        one = tuple(1 for _ in shape)
+        T = ttb.tensor(np.array(full[tuple(0 for _ in shape)], dtype=float).reshape(one), one, copy=True)
+        last = tuple(d - 1 for d in shape)
+        T[last] = full[last]
+        for sub in np.ndindex(*shape):
+            T[sub] = full[sub]
+        return T
     T = tgen.mk_tensor(ttb, np, shape, data)
+    if dtype:
+        T = ttb.tensor(np.asfortranarray(T.data.astype(dtype)), tuple(shape), copy=True)
     if how == "C":
         T.data = np.ascontiguousarray(T.data)
     elif how == "view":
@@ -348,15 +380,18 @@ def run_history(op, a):
     try:
         lay = a.get("layout") or {}
         shape = a["shape"]
-        S = mk_sp_layout(ttb, np, shape, a["subs"], a["vals"], lay.get("A"))
+        dt = a.get("dtype")      # wave 4: value dtype of the operands (default float64): int64 / int32 / int8 / float32
+        S = mk_sp_layout(ttb, np, shape, a["subs"], a["vals"], lay.get("A"), dt)
         R = None
         if "rk" in a:
             if a["rk"] == "scalar":
                 R = a["c"]
             elif a["rk"] == "dense":
-                R = mk_dense_layout(ttb, np, shape, a["bd"], lay.get("dense"))
+                R = mk_dense_layout(ttb, np, shape, a["bd"], lay.get("dense"), dt)
+            elif a["rk"] == "kruskal":
+                R = mk_kruskal(ttb, np, a, lay.get("K"))
             else:
-                R = mk_sp_layout(ttb, np, shape, a["bsubs"], a["bvals"], lay.get("B"))
+                R = mk_sp_layout(ttb, np, shape, a["bsubs"], a["bvals"], lay.get("B"), dt)
         ops = op.split(":")[1:] if op.startswith("then:") else [op]
         out = {"kind": "steps", "steps": []}
         with np.errstate(all="ignore"):
@@ -381,6 +416,10 @@ def run_history(op, a):
             intact = intact and sb == [list(x) for x in a["bsubs"]] and vb == list(a["bvals"])
         elif a.get("rk") == "dense":
             intact = intact and [tgen.exact(x) for x in np.ravel(R.data, order="F")] == list(a["bd"])
+        elif a.get("rk") == "kruskal":
+            intact = (intact and [tgen.exact(x) for x in np.asarray(R.weights).ravel()] == list(a["kw"])
+                      and [[[tgen.exact(x) for x in row] for row in np.asarray(f)] for f in R.factor_matrices]
+                      == [[list(r) for r in f] for f in a["kf"]])
         out["intact"] = bool(intact)
         return out
     except Exception as ex:
@@ -404,6 +443,8 @@ def apply_dense(op, X, Y=None):
     """element-wise meaning of one operator on F-order lists (pure python)"""
     if op == "neg":
         return [-x for x in X]
+    if op == "pos":
+        return list(X)
     if op == "not":
         return [int(x == 0) for x in X]
     if op == "ones":
@@ -459,4 +500,91 @@ def judge_div_asis(o, a):
         want = pydiv(A[s], B[s]) if s in A and s in B else (0 if s in B else "nan")
         if not same_val(got[s], want):
             return f"entry {list(s)} is {got[s]}, the division code is expected to store {want}"
+    return None
+
+
+# ---------------------------------------------------------------------------------------------
+# wave 4: Kruskal right-hand side (sptensor.__mul__ / __truediv__ with a ktensor operand)
+# ---------------------------------------------------------------------------------------------
+KEPS = Fraction(1, 2 ** 52)   # np.finfo(float).eps
+
+
+def kvalue(a, s):
+    """value of the Kruskal tensor (weights a['kw'], factor matrices a['kf'] as row lists) at subscript s (pure python)"""
+    tot = 0
+    for r, w in enumerate(a["kw"]):
+        p = w
+        for n, x in enumerate(s):
+            p *= a["kf"][n][x][r]
+        tot += p
+    return tot
+
+
+def kdense(a):
+    return [kvalue(a, s) for s in tgen.all_subs(a["shape"])]
+
+
+def mk_kruskal(ttb, np, a, how=None):
+    """the ktensor operand; factor matrices F-contiguous (pyttb's own layout), C-contiguous or strided views (how)"""
+    if len(a["shape"]) == 0:
+        return ttb.ktensor()         # order 0: the empty Kruskal tensor
+    R = len(a["kw"])
+    fms = []
+    for n, f in enumerate(a["kf"]):
+        m = np.array(f, dtype=float).reshape((a["shape"][n], R))
+        fms.append(lay2d(np, m, how) if how else np.asfortranarray(m))
+    w = np.array(a["kw"], dtype=float)
+    if how:
+        return ttb.ktensor(fms, w, copy=False)
+    return ttb.ktensor(fms, w)
+
+
+def gkt(a):
+    return tgen.gktensor(a["kw"], a["kf"])
+
+
+def judge_k_asis(o, op, a, filtered=False):
+    """brute-force expectation of the Kruskal branches AS THE CODE IS (oracle of the list-for-list ties mulmodel / divmodel):
+    the stored rows of the sparse operand in their order, each with x * K[s] resp. x / max(eps, K[s])"""
+    if "exc" in o:
+        return f"admissible request raised {o['exc']}: {o.get('msg')}"
+    st = o["steps"][0]
+    if st.get("kind") != "sparse":
+        return f"result of kind {st.get('kind')}"
+    p = wf_problems(st, a["shape"], zeros_ok=True)
+    if p:
+        return "ill-formed sparse result: " + p
+    rows = [(list(s), x) for s, x in zip(a["subs"], a["vals"])]
+    if filtered and op == "mul":
+        rows = [(s, x) for s, x in rows if x * kvalue(a, s) != 0]
+    if st["subs"] != [s for s, _ in rows]:
+        return f"stored rows {st['subs']} are not the rows of the sparse operand in their stored order"
+    for (s, x), g in zip(rows, st["vals"]):
+        k = kvalue(a, s)
+        want = x * k if op == "mul" else Fraction(x) / max(KEPS, Fraction(k))
+        if not same_val(g, want):
+            return f"entry {s} is {g}, the Kruskal branch is expected to store {want} (x = {x}, K[s] = {k})"
+    if not o.get("intact", True):
+        return "an operand no longer holds the values it was built from after the call"
+    return None
+
+
+# ---------------------------------------------------------------------------------------------
+# wave 4: order-0 operands.  pyttb's shape () is the EMPTY tensor (sptensor(shape=()) stores no row, tensor() has no data,
+# allsubs() lists nothing): there is no position, every operator must hand back an empty container
+# ---------------------------------------------------------------------------------------------
+def judge_ord0(o):
+    if "exc" in o:
+        return f"admissible request on order-0 operands raised {o['exc']}: {o.get('msg')}"
+    for k, st in enumerate(o["steps"]):
+        if st.get("kind") == "sparse":
+            if st["shape"] != [] or st["subs"] or st["vals"] or st["nnz"] != 0 or not st.get("full_ok", True):
+                return f"step {k + 1}: order-0 operands (no cell) give a sparse result of shape {st['shape']} storing {st['subs']} / {st['vals']}"
+        elif st.get("kind") == "dense":
+            if st["shape"] not in ([], [0]) or st["data"]:
+                return f"step {k + 1}: order-0 operands (no cell) give a dense result of shape {st['shape']} with data {st['data']}"
+        else:
+            return f"step {k + 1}: result of type {st.get('type')}"
+    if not o.get("intact", True):
+        return "an operand no longer holds what it was built from after the call"
     return None
